@@ -78,6 +78,17 @@ def confirm(sdir, demo_cmd):
         res['patched_builds'] = ok
         rc, out = sh('ctest --test-dir _build -j8 --timeout 900 2>&1 | tail -12', cwd=patched)
         failed = [ln.split('-')[1].strip().split()[0] for ln in out.splitlines() if ' - ' in ln and '(Failed)' in ln]
+        # tests/cmstest.c fails about once in a hundred runs on the pinned tree itself (random serial number with a leading zero
+        # octet): an unexpected failure is re-run before it is held against the patch
+        env_fail = {'http', 'http_crl', 'tlcp_commands', 'tls12_commands', 'tls13_commands'}
+        for t in [t for t in failed if t not in env_fail]:
+            oks = 0
+            for _ in range(3):
+                rc2, _o = sh('ctest --test-dir _build -R "^%s$" --timeout 900 >/dev/null 2>&1' % t, cwd=patched)
+                oks += rc2 == 0
+            if oks == 3:
+                failed.remove(t)
+                res.setdefault('ctest_flaky_passed_on_rerun', []).append(t)
         res['ctest_failed'] = failed
         res['ctest_ok'] = set(failed) <= {'http', 'http_crl', 'tlcp_commands', 'tls12_commands', 'tls13_commands'}
         for name, root in (('clean', CLEAN), ('patched', patched)):
